@@ -178,7 +178,8 @@ func (g *aspGen) elemOf(l *avar, t AspType, d int) ex {
 	}
 	g.op(pCmp)
 	alt := g.elemAliased(t, d-1)
-	e := ex{s: index(le, idx).s + " if " + cond + " else " + par(alt, pTernary), p: pTernary, post: 2, ln: -1, nonASCII: true}
+	e := ex{s: index(le, idx).s + " if " + cond + " else " + par(alt, pTernary), p: pTernary, post: 2, ln: -1, nonASCII: true,
+		fold: l.folded || alt.fold, cpart: alt.cpart}
 	g.feat("inline_if")
 	return e
 }
